@@ -9,6 +9,7 @@ mod c01;
 mod c18;
 mod c17;
 mod stats;
+mod c07;
 
 use util::Out;
 
@@ -33,6 +34,8 @@ fn main() {
         "C11" => stats::run_c11(&mut out),
         "C12" => stats::run_c12(&mut out),
         "C13" => stats::run_c13(&mut out),
+        "C07" => c07::run_c07(&mut out),
+        "C08" => c07::run_c08(&mut out),
         _ => {
             eprintln!("unknown property {prop}");
             std::process::exit(2);
